@@ -142,6 +142,76 @@ def r1b_charged_once(rep, g):
                   f'{"more than once, so documents nested below the limit are rejected" if max(totals) > 1 else "not at all"}', loc)
 
 
+def r1c_first_level(rep, g, facts):
+    """the first container reached from an entry point is charged once as well (the cycles of R1b begin after it)"""
+    R = rep.rule('C05/R1c', 'from every entry point of the parser (document, value, key, key path) each way down to a construct that recurses is charged to the depth counter exactly once: '
+                 'the check_recursion wrappers between the entry point and the first recursive construct (the target of a wrapped edge of a cycle) number exactly one on every path, '
+                 'so the limit is the same through every entry point', floor=2)
+    edges = {}
+    for d, t in g.terms.items():
+        if t is None:
+            continue
+        for f, dep in mentions_depth(g, t):
+            if f in g.terms:
+                edges.setdefault(d, {}).setdefault(f, set()).add(dep)
+    charged = set()
+    for cyc in simple_cycles(edges):
+        for i, u in enumerate(cyc):
+            v = cyc[(i + 1) % len(cyc)]
+            if any(dep > 0 for dep in edges[u][v]):
+                charged.add(v)
+    if not charged:
+        rep.incomplete(R, 'charged constructs', 'no wrapped edge on a cycle found')
+        return
+    memo = {}
+
+    def totals(n, seen=()):
+        """numbers of wrappers on the ways from n down to a charged construct (edges out of charged constructs are not followed: the graph is then acyclic)"""
+        if n in memo:
+            return memo[n]
+        out = set()
+        for v, deps in edges.get(n, {}).items():
+            if v in seen:
+                continue
+            if v in charged:
+                out |= set(deps)
+            else:
+                out |= {a + b for a in deps for b in totals(v, seen + (n,))}
+        memo[n] = out
+        return out
+    n_entries = 0
+    for d, b in sorted(facts.bodies.items()):
+        if not (d.startswith(P) and d.count('::') == 2 and g.terms.get(d, 0) is None):
+            continue
+        # the parsers an entry function runs, with the wrappers put around them there
+        ments = []
+
+        def rec(n, dep):
+            if isinstance(n, dict):
+                if n.get('k') == 'call' and last_seg((peel(n.get('f', {})).get('path') or '')) == 'check_recursion':
+                    for a in n.get('args', []):
+                        rec(a, dep + 1)
+                    return
+                if n.get('k') == 'path' and n.get('path') in g.terms and g.terms.get(n['path']) is not None:
+                    ments.append((n['path'], dep))
+                for v in n.values():
+                    rec(v, dep)
+            elif isinstance(n, list):
+                for v in n:
+                    rec(v, dep)
+        rec(b['body'], 0)
+        for f, dep in ments:
+            ts = {dep + x for x in totals(f)} if f not in charged else {dep}
+            if not ts:
+                rep.ok(R, f'{short(d)} -> {short(f)}', 'reaches no recursive construct', facts.loc(b))
+                continue
+            n_entries += 1
+            rep.check(R, f'{short(d)} -> {short(f)}', ts == {1}, f'one check_recursion on every way to {sorted(short(c) for c in charged)}',
+                      f'through the entry point `{short(d)}` the first recursive construct is reached under {sorted(ts)} check_recursion wrapper(s): this entry point '
+                      f'{"accepts less nesting than the others (documents nested below the limit are refused)" if max(ts) > 1 else "does not charge the first level"}', facts.loc(b))
+    rep.check(R, 'entry points', n_entries >= 2, f'{n_entries} entry points reach a recursive construct', f'only {n_entries} entry point(s) of the parser reach a recursive construct (document and value expected)')
+
+
 def r2_pairing(rep, facts):
     R = rep.rule('C05/R2', 'check_recursion: enter precedes the inner parser, and every path from the inner parser to the return passes '
                  'through exit exactly once (also when the inner parser fails)', floor=4)
@@ -321,6 +391,10 @@ def rules(rep, facts):
     g = pm.model(facts)
     r1_guarded(rep, g)
     r1b_charged_once(rep, g)
+    r1c_first_level(rep, g, facts)
+    from .shared import no_reparse
+    no_reparse(rep, rep.rule('C05/R6', 'no recursive construct is parsed twice from one position (backtracking over a nested array or inline table multiplies with the depth: 2^depth parses, so '
+                                       'a document nested well below the limit never finishes)', floor=1), g)
     if 'unbounded' in feats:
         rep.notes.append(f'configuration {facts.config}: the counter is compiled out by design (documented exception), R2-R4 skipped.')
         return
